@@ -72,7 +72,9 @@ class Check(PropertyCheck):
             if r < 0.06:
                 lines.append("obs " + rng.choice(KINDS))
             elif r < 0.09:
-                lines.append("obsn " + rng.choice(KINDS))      # constructed with subscribe=False
+                # constructed with subscribe=False (and, one time in two, subscribed by hand straight away - if the constructor
+                # let it be: a second observer of a singleton type is refused whatever the flag says)
+                lines.append(rng.choice(["obsn ", "obsn2 "]) + rng.choice(KINDS))
             elif r < 0.12:
                 lines.append(f"obs recorder {rng.randint(0, 2)}")
             elif r < 0.15:
@@ -245,6 +247,16 @@ class Check(PropertyCheck):
         if line.startswith("fobs") and out != "raise":
             res.append(("failed-constructor", f"`{line}` (a feature type this observer does not support) replied `{out}`: the constructor "
                         "must raise and leave the subscriber list as it was"))
+        # the singleton guard is the constructor's: while an observer of a singleton type is subscribed, constructing another one is
+        # refused - whatever the `subscribe` flag says.  (`Dispatcher.subscribe` itself checks nothing: re-subscribing a retired
+        # observer by hand next to its successor is the caller's business and outside the property - DESIGN C10.)
+        if line.split()[0] in ("obs", "obsn", "obsn2") and out.isdigit() and len(line.split()) >= 2:
+            cls = impl_ext.KINDS.get(line.split()[1])
+            if cls is not None and getattr(cls, "_is_singleton", False):
+                mine = impl.heap[int(out)]
+                others = [s_ for s_ in d.subscribers if type(s_) is cls and s_ is not mine]
+                if others:
+                    res.append(("singleton", f"`{line}` constructed a second {cls.__name__} while one is subscribed"))
         if line.startswith("inst"):
             ctx.update(trace_len=0, expected_hist={}, sub_since={})
             return res
